@@ -6,3 +6,4 @@ import CtyModel.Props.C11
 import CtyModel.Props.C14
 import CtyModel.Props.C18
 import CtyModel.Props.C05
+import CtyModel.Props.C04
